@@ -2,6 +2,7 @@ package main
 
 import (
 	"fmt"
+	"go/token"
 	"go/types"
 	"strings"
 )
@@ -127,6 +128,25 @@ func (g *gen) astValidAxioms(key, name, sort string) {
 	switch tf {
 	case "SwitchStmt.Body", "TypeSwitchStmt.Body", "SelectStmt.Body":
 		g.astClauseAxiom(tf, name)
+	case "GenDecl.Specs":
+		// the kind of the specs follows the keyword: type -> TypeSpec, import -> ImportSpec, const/var -> ValueSpec
+		tok := g.heapInit(fieldKey("go/ast.GenDecl", "Tok"), arr("Int", "Int"))
+		e := g.heapInit(elemKey("Iface"), arr("Int", arr("Int", "Iface")))
+		i := g.freshName("avi")
+		sl := sel
+		el := app("select", app("select", e, app("s_base", sl)), sidx(app("s_off", sl), i))
+		tagOfT := func(name string) string {
+			if t := g.resolveType(&specEnv{pkg: g.pkgTypes()}, name); t != nil {
+				return fmt.Sprint(g.st.tagOf(t))
+			}
+			return ""
+		}
+		ts, is, vs := tagOfT("*ast.TypeSpec"), tagOfT("*ast.ImportSpec"), tagOfT("*ast.ValueSpec")
+		if ts != "" && is != "" && vs != "" {
+			tk := app("select", tok, n)
+			kind := fmt.Sprintf("(ite (= %s %d) %s (ite (= %s %d) %s %s))", tk, int(token.TYPE), ts, tk, int(token.IMPORT), is, vs)
+			g.assumeGlobal(fmt.Sprintf("(forall ((%s Int) (%s Int)) (! (=> (and (tnode %s) (<= 0 %s) (< %s (s_len %s))) (= (i_tag %s) %s)) :pattern (%s)))", n, i, n, i, i, sl, el, kind, el))
+		}
 	case "DeclStmt.Decl":
 		// a declaration statement holds a general declaration (const, type, var)
 		if t := g.resolveType(&specEnv{pkg: g.pkgTypes()}, "*ast.GenDecl"); t != nil {
